@@ -854,11 +854,77 @@ func runC04Credentials(e *core.Env) {
 	}
 }
 
+// runC04NoMixture: a unary call that returned Canceled has returned for good - when the handler's reply arrives
+// afterwards (a handler that ignores its context; a reply body that completes late) nothing of it is written
+// into the reply object, which the caller may already be using for its next call: cancellation status or the
+// complete result, never the one followed by the other.
+func runC04NoMixture(e *core.Env) {
+	inp := NewInproc(&Service{}, carrierOpt{})
+	defer inp.Close()
+	e.Cases("no-mixture-after-cancel", e.N(30, 300), func(i int, r *rand.Rand) {
+		if i%2 == 0 {
+			_, _, resp, placed := earlyReturnUnaryResp(e, "C04", inp, "inproc", r)
+			if !placed {
+				return
+			}
+			e.Eval("no-mixture-after-cancel|inproc", true)
+			if proto.Size(resp) != 0 {
+				e.Violate("inproc/unary/reply-written-after-cancelled-return", "Invoke had returned the cancellation; the handler's reply was then written into the caller's reply object: "+msgDesc(resp), nil)
+			}
+			return
+		}
+		reply := &tpb.Message{Payload: []byte(fmt.Sprintf("late-%d", i)), Count: 4242}
+		full, _ := proto.Marshal(reply)
+		gate, closed, arrived := make(chan struct{}), make(chan struct{}), make(chan struct{})
+		body := &lateBody{data: full, gate: gate, closed: closed}
+		ch := &httpgrpc.Channel{BaseURL: mustURL("http://late.test/"), Transport: rtFunc(func(rq *http.Request) (*http.Response, error) {
+			h := http.Header{}
+			h.Set("Content-Type", httpgrpc.UnaryRpcContentType_V1)
+			close(arrived)
+			return &http.Response{StatusCode: 200, Header: h, Body: body, ContentLength: int64(len(full)), Request: rq, ProtoMajor: 1, ProtoMinor: 1}, nil
+		})}
+		ctx, cancel := context.WithCancel(context.Background())
+		defer cancel()
+		resp := new(tpb.Message)
+		res := make(chan error, 1)
+		go func() { res <- ch.Invoke(ctx, Unary.Method(), &tpb.Message{}, resp) }()
+		select {
+		case <-arrived:
+		case <-time.After(watchdog):
+			e.Inconclusive("C04 no-mixture-after-cancel: round trip not reached")
+			close(gate)
+			return
+		}
+		cancel()
+		var ierr error
+		select {
+		case ierr = <-res:
+		case <-time.After(watchdog):
+			e.Inconclusive("C04 no-mixture-after-cancel: Invoke did not return after cancel")
+			close(gate)
+			return
+		}
+		resp.Reset()
+		resp.Payload = []byte("the caller's next call")
+		close(gate)
+		select {
+		case <-closed:
+		case <-time.After(2 * time.Second):
+		}
+		time.Sleep(2 * time.Millisecond)
+		e.Eval("no-mixture-after-cancel|http", true)
+		if ierr != nil && (string(resp.Payload) != "the caller's next call" || resp.Count != 0) {
+			e.Violate("http/unary/reply-written-after-cancelled-return", fmt.Sprintf("Invoke had returned %v; when the reply body arrived afterwards it was decoded into the caller's reply object, which now reads {%s}", ierr, msgDesc(resp)), nil)
+		}
+	})
+}
+
 func runC04(e *core.Env, nScripts, maxHooks int) {
 	curEnv = e
 	runC04Extra(e)
 	runC04Descheduled(e)
 	runC04Credentials(e)
+	runC04NoMixture(e)
 	inp := NewInproc(&Service{}, carrierOpt{})
 	htt := NewHTTPServer(&Service{}, carrierOpt{})
 	defer inp.Close()
